@@ -3,10 +3,18 @@
 package snap
 
 import (
+	"net"
+	"runtime"
+	"strings"
 	"testing"
+	"time"
 
+	"github.com/hashicorp/memberlist"
+	"github.com/hashicorp/serf/serf"
 	"pgregory.net/rapid"
 
+	"verif/internal/node"
+	"verif/internal/simnet"
 	"verif/internal/vkit"
 )
 
@@ -18,6 +26,7 @@ func genC13(t *rapid.T) snapCase {
 		Rejoin:     rapid.Bool().Draw(t, "rejoin"),
 		RealFS:     rapid.IntRange(0, 7).Draw(t, "fs") == 0,
 	}
+	c.SerfLayer = rapid.IntRange(0, 4).Draw(t, "serf-layer") == 0
 	c.Names = genNames(t, false)
 	before := genOps(t, 30, map[int]int{opJoin: 6, opLeave: 2, opFailed: 2, opUpdate: 1, opReap: 1, opUser: 2,
 		opQuery: 2, opWitness: 2, opTick: 1, opAdvance: 1})
@@ -27,7 +36,96 @@ func genC13(t *rapid.T) snapCase {
 	return c
 }
 
+// serfLeave drives the same property through a real node: members join (by
+// memberlist notification), the node leaves gracefully through Serf.Leave and
+// shuts down; a restart from its snapshot must not re-join anybody unless
+// rejoin-after-leave is set.
+func serfLeave(c *snapCase, x *vkit.Ctx) {
+	fs := newMemFS()
+	clk := newFakeClock()
+	serf.VerifSetFS(fs)
+	serf.VerifSetClock(clk)
+	defer serf.VerifSetFS(nil)
+	defer serf.VerifSetClock(nil)
+	stopTicks := make(chan struct{})
+	go func() { // nobody sends ticks in this layer; keep the channel drained
+		<-stopTicks
+	}()
+	defer close(stopTicks)
+	nw := simnet.New(1)
+	const path = "/snap/serf-snapshot"
+	n, err := node.New(nw, node.Opts{Name: "leaver", Quiet: true, Mutate: func(sc *serf.Config) {
+		sc.SnapshotPath = path
+		sc.RejoinAfterLeave = c.Rejoin
+	}})
+	if err != nil {
+		x.Inconclusive("create: " + err.Error())
+		return
+	}
+	alive := map[string]string{}
+	k := 0
+	for _, op := range c.Ops {
+		if op.K == opGracefulLeave {
+			break
+		}
+		if op.K != opJoin && op.K != opFailed {
+			continue
+		}
+		name := c.Names[op.M%len(c.Names)]
+		if name == "leaver" || strings.ContainsAny(name, "\n") {
+			continue
+		}
+		ip, port := addrFor(op.M%len(c.Names), op.A)
+		mn := &memberlist.Node{Name: name, Addr: ip, Port: port, PMin: 1, PMax: 5, PCur: 2, DMin: 2, DMax: 5, DCur: 5}
+		if op.K == opJoin {
+			n.EventsD.NotifyJoin(mn)
+			alive[name] = (&net.TCPAddr{IP: ip, Port: int(port)}).String()
+		} else {
+			n.EventsD.NotifyLeave(mn)
+			delete(alive, name)
+		}
+		k++
+	}
+	// let the snapshotter take in what was sent before the leave
+	dl := time.Now().Add(10 * time.Second)
+	for n.Serf.VerifSnapshotter().VerifBacklog() != 0 && time.Now().Before(dl) {
+		runtime.Gosched()
+	}
+	time.Sleep(time.Millisecond)
+	if err := n.Serf.Leave(); err != nil {
+		x.Inconclusive("leave: " + err.Error())
+		n.Stop()
+		return
+	}
+	// events after the leave must not matter
+	n.EventsD.NotifyJoin(&memberlist.Node{Name: "late-joiner", Addr: net.IPv4(10, 9, 9, 9), Port: 7946, PMin: 1, PMax: 5, PCur: 2, DMin: 2, DMax: 5, DCur: 5})
+	n.Stop()
+	rec, err := restoreFrom(fs.snapshotFilesLocked(), path, c.Rejoin)
+	if err != nil {
+		x.Violationf("reopen-failed", "serf layer: reopening the snapshot failed: %v", err)
+		return
+	}
+	want := map[string]string{}
+	if c.Rejoin {
+		want = alive
+		want["leaver"] = n.Tr.Addr()
+	}
+	if aliveKey(rec.Alive) != aliveKey(want) {
+		x.Violationf("serf-leave-not-remembered", "serf layer, rejoin_after_leave=%v: a node that called Serf.Leave() and shut down would re-join %s on restart, expected %s",
+			c.Rejoin, aliveKey(rec.Alive), aliveKey(want))
+		return
+	}
+	x.Label("serf-layer")
+	x.Labelf("serf-layer-alive-at-leave=%d", min(len(alive), 3))
+}
+
 func bodyC13(c snapCase, x *vkit.Ctx) {
+	if c.SerfLayer {
+		serfLeave(&c, x)
+		if x.Failed() || x.IsInconclusive() {
+			return
+		}
+	}
 	r, err := newSnapRun(&c)
 	if err != nil {
 		x.Inconclusive("setup: " + err.Error())
